@@ -173,6 +173,24 @@ void c01_case(Ctx &c) {
           dlg.push_back(sdoframe(sn, (uint8_t)(0xC1 | (c.t.below(8) << 2)), 0, 0, 0)); cut = (int)dlg.size(); corrupt = -1;
         }
         else { dlg.push_back(sdoframe(sn, 0xC2, 0x2007, 0, 2)); Frame f = sdoframe(sn, 0x81, 1, 2, 3); dlg.push_back(f); dlg.push_back(f); dlg.push_back(sdoframe(sn, (uint8_t)(0xC1 | (5 << 2)), 0, 0, 0)); }
+        // a quarter of the block-upload dialogues are played by a conforming client to their regular end - every sub-block acknowledged in full, the end
+        // confirmed - and followed at once by a segmented download to a small object (the transfer buffer a finished transfer leaves behind is the next
+        // transfer's starting point); decided from the cut position, no tape choice
+        if (kind == 3 && cut % 4 == 0) {
+          VLOG(c, "  (conforming block upload to its end, then a segmented download to a small object)");
+          s.clear_tx(); s.rx(dlg[0]); bool ok = !s.tx.empty() && (s.tx.back().d[0] & 0xE0) == 0xC0; s.clear_tx();
+          if (ok) { s.rx(dlg[1]);
+            for (int guard = 0; guard < 40; guard++) {
+              int nseg = 0; bool last = false; for (auto &t : s.tx) if (t.id == (sn ? 0x5C0u : 0x580u) + (nid & 0x7F)) { nseg++; if (t.d[0] & 0x80) last = true; }
+              if (nseg == 0) break;
+              s.clear_tx(); Frame a = sdoframe(sn, 0xA2, 0, 0, 0); a.d[1] = (uint8_t)nseg; a.d[2] = 127; a.d[3] = 0; s.rx(a);
+              if (last) { s.clear_tx(); s.rx(sdoframe(sn, 0xA1, 0, 0, 0)); break; }
+            }
+            s.clear_tx(); uint8_t ssb = (uint8_t)(1 + c.t.below(11)); s.rx(sdoframe(sn, 0x21, 0x2100, ssb, 1 + c.t.below(4))); Frame g = sdoframe(sn, (uint8_t)(0x01 | (c.t.below(8) << 1)), 0, 0, 0); for (int k = 1; k < 8; k++) g.d[k] = c.t.byte(); s.rx(g);
+            c.cls("block-upload-to-its-end-then-segmented-download-to-a-small-object");
+          }
+          after("an SDO dialogue"); break;
+        }
         bool docut = c.t.coin();
         int cnt = 0; for (auto &f : dlg) { if (docut && cnt >= cut) break; if (cnt == corrupt) { f.d[c.t.below(8)] ^= (uint8_t)(1u << c.t.below(8)); } s.rx(f); cnt++; }
         after("an SDO dialogue"); break;
